@@ -4,7 +4,7 @@
    observation with oracles that do not go through the model's algorithms. *)
 From SC Require Export Base.Prelude Traits.Str Traits.Parent Traits.Vending Traits.FanSpeed Traits.ModeTrait
   Traits.EnterLeave Traits.Meter Traits.Publication Traits.Options Traits.Store Traits.VendingStore Traits.FanMask.
-From SC Require Export Msg.Msg Msg.Schema Msg.Path Masks.Get Traits.MeterMask.
+From SC Require Export Msg.Msg Msg.Schema Msg.Path Masks.Get Traits.MeterMask Traits.StockMask.
 From Coq Require Import QArith Qabs.
 Open Scope Z_scope.
 
@@ -24,7 +24,9 @@ Inductive c20case :=
 | KVStore (pre : vstate) (names_ok : bool) (o : vop) (obs : vres) (post : vstate)
 | KFanMask (ps : list preset) (pre req : fan) (m : option fmask) (obs : fout) (post : fan)
 | KMeterSeq (pre : mmeter) (o : mmop) (code : Z) (ret : option mmeter) (post : mmeter)
-| KSchema (dumped : schema).
+| KSchema (dumped : schema)
+| KStockMask (name : string) (pre : option zstock) (req : zstock) (um : mask) (code : Z) (ret_ok : bool)
+             (post : option zstock) (other_same : bool).
 
 (* ---- meter with arbitrary update masks (paths) ---- *)
 Definition ts_eqb (a b : ts) : bool := (fst a =? fst b) && (snd a =? snd b).
@@ -73,6 +75,60 @@ Definition fdesc_eqb (a b : fdesc) : bool :=
 (* every hand-written message type is exactly what the Go descriptors say *)
 Definition schema_agrees (hand dumped : schema) : bool :=
   forallb (fun e => match alookup (fst e) dumped with Some fs => list_eqb fdesc_eqb (snd e) fs | None => false end) hand.
+
+(* ---- stock with arbitrary update masks (paths) ---- *)
+Definition zq_eqb (a b : Z * Z) : bool := (fst a =? fst b) && (snd a =? snd b).
+Definition ps_eqb (a b : zstock) : bool :=
+  option_eqb zq_eqb (ps_used a) (ps_used b) && option_eqb zq_eqb (ps_rem a) (ps_rem b)
+  && option_eqb zq_eqb (ps_last a) (ps_last b) && Bool.eqb (ps_disp a) (ps_disp b).
+(* the update is the generic store's Update step on the one-record store with the path merge function, and the
+   generic FieldUpdater model on the encoded trees gives the same record *)
+Definition stock_mask_agrees (name : string) (pre : option zstock) (req : zstock) (um : mask) (code : Z)
+           (post : option zstock) : bool :=
+  let s := match pre with Some o => [(name, o)] | None => [] end in
+  let '(out, s') := sstep zupdate (@stock_mask_bad) s (SUpdate name req um) in
+  match out with
+  | SOk n r => (code =? 0) && String.eqb n name && option_eqb ps_eqb post (Some r)
+  | SErr c => (code =? c) && option_eqb ps_eqb post pre
+  | SNil => false
+  end
+  && option_eqb ps_eqb post (sfind name s')
+  && match pre with
+     | Some o => match zupdate_tree name um o req with
+                 | Some (c, p) => (code =? c) && option_eqb ps_eqb post (Some p)
+                 | None => false
+                 end
+     | None => true
+     end.
+Definition same_unless (touched : bool) (a b : option (Z * Z)) : bool := touched || option_eqb zq_eqb a b.
+Definition stock_mask_ok (pre : option zstock) (req : zstock) (um : mask) (code : Z) (ret_ok : bool)
+           (post : option zstock) (other_same : bool) : bool :=
+  ret_ok && other_same &&
+  match pre, post with
+  | None, None => negb (code =? 0)
+  | Some o, Some p =>
+      if negb (code =? 0) then ps_eqb p o else
+      match um with
+      | None => ps_eqb p req
+      | Some ups =>
+          same_unless (path_heads "used" ups) (ps_used p) (ps_used o)
+          && same_unless (path_heads "remaining" ups) (ps_rem p) (ps_rem o)
+          && same_unless (path_heads "last_dispensed" ups) (ps_last p) (ps_last o)
+          && (path_heads "dispensing" ups || Bool.eqb (ps_disp p) (ps_disp o))
+          && (negb (names_exactly "dispensing" ups) || Bool.eqb (ps_disp p) (ps_disp req))
+          (* only used.amount named under "used": the unit is the stored one *)
+          && (negb (forallb (fun u => match u with s0 :: r => negb (String.eqb s0 "used") || list_eqb String.eqb r ["amount"%string] | [] => false end) ups
+                    && path_heads "used" ups)
+              || match ps_used o, ps_used p with
+                 | Some a, Some b => fst a =? fst b
+                 | None, None => true
+                 | None, Some b => match ps_used req with Some _ => fst b =? 0 | None => false end
+                 | Some _, None => false
+                 end)
+      end
+  | _, _ => false
+  end.
+
 
 Definition children_eqb (a b : children) : bool :=
   list_eqb (fun x y => String.eqb (fst x) (fst y) && strs_eqb (snd x) (snd y)) a b.
@@ -530,6 +586,7 @@ Definition C20_ok (c : c20case) : bool :=
   | KFanMask ps pre req m obs post => fan_mask_ok ps pre req m obs post
   | KMeterSeq pre o code ret post => meter_seq_ok pre o code ret post
   | KSchema _ => true
+  | KStockMask _ pre req um code ret_ok post other_same => stock_mask_ok pre req um code ret_ok post other_same
   end.
 
 Definition C20_guard (c : c20case) : bool :=
@@ -551,7 +608,7 @@ Definition C20_guard (c : c20case) : bool :=
   | KNew model dflt opts _ _ => config_wf (model_nres model) (dflt ++ opts)
   | KVStore pre _ _ _ _ => vstate_wf pre
   | KFanMask ps pre _ _ _ _ => presets_wf ps && fan_consistent ps pre
-  | KMeterSeq _ _ _ _ _ | KSchema _ => true
+  | KMeterSeq _ _ _ _ _ | KSchema _ | KStockMask _ _ _ _ _ _ _ _ => true
   end.
 
 Definition agrees (c : c20case) : bool :=
@@ -589,7 +646,8 @@ Definition agrees (c : c20case) : bool :=
   | KFanMask ps pre req m obs post =>
       let '(o, p) := fan_update_masked ps pre req m in fout_eqb obs o && fan_eqb post p
   | KMeterSeq pre o code ret post => meter_seq_agrees pre o code ret post
-  | KSchema dumped => schema_agrees meter_schema dumped
+  | KSchema dumped => schema_agrees meter_schema dumped && schema_agrees stock_schema dumped
+  | KStockMask name pre req um code _ post _ => stock_mask_agrees name pre req um code post
   end.
 
 Definition judge (c : c20case) : Z :=
